@@ -894,7 +894,10 @@ def check_b(ck, repo):
     ci = repo.cls(MOD, CLS)
     fit = ci.methods["fit"]
     ex = expander(repo)
+    from .sem import nested_functions
+
     fns = [fit] + [f for f in ci.methods.values() if f is not fit]
+    fns += [g for f in list(fns) for g in nested_functions(repo, f)]
     ctor = [(f, c) for f in fns for c in calls(f, lambda c: src_of(c.func).split(".")[-1] == "LinearRegression" and not src_of(c.func).endswith("__init__"))]
     if len(ctor) != 1:
         ck.unknown("C05.b", fit, "LinearRegression(...)", f"expected one inner LinearRegression, found {len(ctor)}")
